@@ -31,6 +31,9 @@ DEVIATIONS_T = ["MC_trusted_dev_TrustedInit.cfg", "MC_arch_dev_ResetKeepsPages.c
 CE = [("CE_trusted_TrustedInit.cfg", "trusted"), ("CE_arch_ResetKeepsPages.cfg", "arch"), ("CE_arch_ResetKeepsLRU.cfg", "arch"),
       ("CE_arch_NoPrevCopy.cfg", "arch"), ("CE_arch_StoredFromBlock.cfg", "arch")]
 
+PRIORITY = ["Restarted", "ResetOK", "NoPanic", "Extends", "HeightBound", "ForeignFree", "Retained", "NothingBeyondTip", "TipOK",
+            "ResetDone", "HeightsStable"]
+
 RULE_EXT = ("headerhashes extension: cases = operations (AddHeaders batches of 1..2500 headers crossing the 2000 boundary in every "
             "phase, AddBlock runs, flush+GC, clean stop, crash at a chosen batch, Reset across a page boundary, lookup sweeps) "
             "executed on a real core.Blockchain plus one crash probe per atomic batch the node wrote (image reopened with "
@@ -240,7 +243,7 @@ def run_ext(ctx):
         per, taken = {}, []
         for c in ces:
             t = c["hist"][0]["t"]
-            if per.get(t, 0) < (2 if q else 8):
+            if per.get(t, 0) < (1 if q else 8):
                 per[t] = per.get(t, 0) + 1
                 taken.append(c)
         for c in taken:
@@ -294,25 +297,39 @@ def run_ext(ctx):
         kinds[k] = kinds.get(k, 0) + 1
     ctx.extra["hh_event_kinds"] = kinds
     ndrift = {}
+    first = {}     # world -> (line, names): the first falsified step of a world is the violation
     for f in fails:
         ev = events[f["line"] - 1]
-        wd = worlds[ev["world"]]
+        names = []
         for w in sorted(f["what"]):
             if w.startswith("drift:"):
                 ndrift[w] = ndrift.get(w, 0) + 1
                 if len(ctx.spec_drift) < 12:
                     ctx.spec_drift.append({"part": "headerhashes", "what": w, "world": ev["world"], "ctx": f.get("ctx")})
-                continue
-            if w in ("UnknownOp", "UnknownEvent"):
+            elif w in ("UnknownOp", "UnknownEvent"):
                 raise vlib.Inconclusive("trace spec could not read event %s" % ev)
-            sig = {"part": "headerhashes", "kind": w, "node": wd["kind"], "at": ev["event"] if ev["event"] != "step" else ev["op"],
-                   "cause": cause(ev) if w in ("Restarted", "Extends", "ResetOK", "ForeignFree") else ""}
-            small = {k: v for k, v in ev.items() if k != "obs"}
-            obs = ev.get("obs") or {}
-            ctx.violation(sig, {"what": "%s false on the real node (%s world %d, step %s, %s): %s" % (
-                w, wd["kind"], ev["world"], ev.get("step"), ev.get("op") or "crash probe after batch %s" % ev.get("batch"),
-                ev.get("err") or obs.get("panic") or ""),
-                "event": small, "obs": {k: v for k, v in obs.items()}, "ctx": f.get("ctx"), "world": wd, "chain": CHAIN, "mtb": MTB})
+            else:
+                names.append(w)
+        if names and (ev["world"] not in first or f["line"] < first[ev["world"]][0]):
+            first[ev["world"]] = (f["line"], names, f.get("ctx"))
+    for wi in sorted(first):
+        line, names, fctx = first[wi]
+        ev = events[line - 1]
+        wd = worlds[wi]
+        w = min(names, key=lambda n: PRIORITY.index(n) if n in PRIORITY else len(PRIORITY))
+        sig = {"part": "headerhashes", "kind": w, "node": wd["kind"], "at": ev["event"] if ev["event"] != "step" else ev["op"],
+               "cause": cause(ev) if w in ("Restarted", "Extends", "ResetOK", "NoPanic") else ""}
+        if wd["kind"] == "trusted":
+            t = wd["t"]
+            sig["trusted_phase"] = {0: "page-start", 1: "page-start+1", PAGE - 1: "page-end"}.get(t % PAGE, "inside") + ("" if t >= PAGE else "/page0")
+        small = {k: v for k, v in ev.items() if k != "obs"}
+        obs = ev.get("obs") or {}
+        # the shortest prefix of the world's schedule that reaches the failing step
+        wmin = dict(wd, sched=wd["sched"][: max(1, int(ev.get("step") or 0))])
+        ctx.violation(sig, {"what": "%s false on the real node (%s world %d, step %s, %s): %s" % (
+            "+".join(names), wd["kind"], wi, ev.get("step"), ev.get("op") or "crash probe after batch %s" % ev.get("batch"),
+            ev.get("err") or (ev.get("cont") or {}).get("err") or obs.get("panic") or ""),
+            "event": small, "obs": obs, "ctx": fctx, "world": wmin, "chain": CHAIN, "mtb": MTB})
     ctx.extra["hh_drift_counts"] = ndrift
     pr = [e for e in events if e["event"] == "probe" and e.get("ok")]
     if pr:
